@@ -13,9 +13,10 @@ static void user_cb(void *arg, int status, int timeouts, struct ares_addrinfo *r
 int ares_inet_pton(int af, const char *src, void *dst) { if (af == AF_INET && g_is4) { ((unsigned char *)dst)[0] = g_b4; return 1; } if (af == AF_INET6 && g_is6) { ((unsigned char *)dst)[0] = g_b6; return 1; } return 0; }
 ares_status_t ares_append_ai_node(int aftype, unsigned short port, unsigned int ttl, const void *adata, struct ares_addrinfo_node **nodes)
 { if (g_oom && nondet_bool()) return ARES_ENOMEM; g_nodes++; g_node_fam = aftype; g_node_port = port; g_node_ttl = ttl; __CPROVER_assert(((const unsigned char *)adata)[0] == (aftype == AF_INET ? g_b4 : g_b6), "C13: the address of the literal"); *nodes = &g_node; return ARES_SUCCESS; }
-void *ares_malloc_zero(size_t n) { if (g_oom && nondet_bool()) return NULL; void *p = calloc(1, n); __CPROVER_assume(p != NULL); return p; }
+static int g_ai_allocated; static void *g_ai_ptr;
+void *ares_malloc_zero(size_t n) { if (g_oom && nondet_bool()) return NULL; void *p = calloc(1, n); __CPROVER_assume(p != NULL); if (n == sizeof(struct ares_addrinfo)) { g_ai_allocated++; g_ai_ptr = p; } return p; }
 char *ares_strdup(const char *s) { if (g_oom && nondet_bool()) return NULL; return &dup_tok; }
-void ares_freeaddrinfo(struct ares_addrinfo *ai) { if (ai) { __CPROVER_assert(ai == &g_ai, "the result of this request"); g_ai_freed++; } }
+void ares_freeaddrinfo(struct ares_addrinfo *ai) { if (ai) { __CPROVER_assert(ai == &g_ai || ai == g_ai_ptr, "the result of this request"); g_ai_freed++; } }
 void h_gai_literal(void)
 {
   char name[6]; size_t ln = nondet_size() % 6; for (size_t i = 0; i < 5; i++) name[i] = i < ln ? (nondet_bool() ? '.' : (nondet_bool() ? '7' : 'x')) : 0; name[5] = 0;
@@ -32,4 +33,22 @@ void h_gai_literal(void)
   else __CPROVER_assert(g_node_fam == AF_INET6 && g_is6 && hints.ai_family != AF_INET, "C13: otherwise an IPv6 literal, only for an IPv6-capable request");
   if (hints.ai_family != AF_UNSPEC) __CPROVER_assert(g_node_fam == hints.ai_family, "C13: a literal address is returned only in the requested family");
   __CPROVER_assert(g_node.ai_socktype == hints.ai_socktype && g_node.ai_protocol == hints.ai_protocol, "C13: socket type and protocol as requested");
+}
+
+/* ---- C14/C01: ares_getaddrinfo_int(): every failure before the lookup walk starts fires the callback once and releases what was
+ * allocated (the result object, the request, its name copies); once the walk starts the request owns them. ---- */
+int gs_started; void *gs_hq; static int g_names_freed; static _Bool g_snl_ok; static char nm_tok;
+ares_bool_t ares_is_onion_domain(const char *name) { return nondet_bool() ? ARES_TRUE : ARES_FALSE; }
+ares_status_t ares_search_name_list(const ares_channel_t *channel, const char *name, char ***names, size_t *names_len) { if (!g_snl_ok) { *names = NULL; *names_len = 0; return nondet_bool() ? ARES_ENOMEM : ARES_EBADNAME; } *names = (char **)&nm_tok; *names_len = 1; return ARES_SUCCESS; }
+void ares_strsplit_free(char **elms, size_t num_elm) { if (elms) g_names_freed++; }
+static int g_allocs, g_frees;
+void *gs_malloc_zero(size_t n);
+void h_gai_setup(void)
+{
+  static ares_channel_t ch; static char lk[] = "b"; ch.lookups = lk; struct ares_addrinfo_hints hints; memset(&hints, 0, sizeof(hints)); hints.ai_family = nondet_bool() ? AF_UNSPEC : (nondet_bool() ? AF_INET : (nondet_bool() ? AF_INET6 : nondet_int())); hints.ai_flags = nondet_int() & ~ARES_AI_NUMERICSERV;
+  g_is4 = g_is6 = 0; g_oom = nondet_bool(); g_snl_ok = nondet_bool(); g_cb = g_ai_freed = g_nodes = g_names_freed = gs_started = g_ai_allocated = 0; gs_hq = NULL; memset(&g_ai, 0, sizeof(g_ai));
+  ares_getaddrinfo_int(&ch, "host", NULL, &hints, user_cb, NULL);
+  if (gs_started) { __CPROVER_assert(gs_started == 1 && g_cb == 0 && g_ai_freed == 0, "C01: once the lookup walk starts nothing has completed yet and the result object belongs to the request"); __CPROVER_assert(((struct host_query *)gs_hq)->ai != NULL && ((struct host_query *)gs_hq)->name != NULL && ((struct host_query *)gs_hq)->lookups != NULL, "C01: the request carries its result object and its own copies of name and lookup order"); return; }
+  __CPROVER_assert(g_cb == 1 && g_cb_ai == NULL && g_cb_status != ARES_SUCCESS, "C01/C14: a request that cannot be started completes exactly once, with an error and no result");
+  __CPROVER_assert(g_ai_allocated == g_ai_freed, "C14: the result object allocated for a request that cannot be started is released (no leak on any early failure)");
 }
